@@ -322,11 +322,17 @@ func (dec *Decoder) LastReferenceIndex() int {
 
 // ReadReference to p.
 func (dec *Decoder) ReadReference(p interface{}) {
-	o := dec.refer.Read(dec.ReadInt())
+	dec.convertReference(dec.refer.Read(dec.ReadInt()), p)
+}
+
+func (dec *Decoder) convertReference(o interface{}, p interface{}) {
 	src := reflect.TypeOf(o)
 	dest := reflect.TypeOf(p).Elem()
 	if conv := GetConverter(src, dest); conv != nil {
 		conv(dec, o, p)
+	} else if src != nil && src.Kind() == dest.Kind() && src.ConvertibleTo(dest) {
+		// e.g. a []byte read earlier referred to by a destination of a named []byte type
+		reflect.ValueOf(p).Elem().Set(reflect.ValueOf(o).Convert(dest))
 	} else if dec.Error == nil {
 		dec.Error = CastError{
 			Source:      src,
